@@ -517,7 +517,9 @@ def handle (st : Unit) (j : Json) : Except String (Unit × Json) := do
     let n ← wnetOfJson (← j.getObjVal? "net")
     let pr (r : Bool × String) : Json := Json.arr #[Json.bool r.1, Json.str r.2]
     pure (st, Json.mkObj [("c04_text_struct", pr (Spydr.Verilog.Elab.reportStruct n)),
-      ("c04_text_bb", pr (Spydr.Verilog.Elab.reportBB n)), ("c04_full_bb", pr (Spydr.Verilog.Elab.reportFullBB n))])
+      ("c04_text_bb", pr (Spydr.Verilog.Elab.reportBB n)), ("c04_full_bb", pr (Spydr.Verilog.Elab.reportFullBB n)),
+      ("c04_ast_hier", pr (Spydr.Verilog.Elab.reportHier n)),
+      ("c04_text_hier", pr (Spydr.Verilog.Elab.reportHierText n))])
   else if fn == "fragment06" then
     let t ← getStr j "text"
     let pr (r : Bool × String) : Json := Json.arr #[Json.bool r.1, Json.str r.2]
